@@ -6,13 +6,13 @@ import GcArena.Proofs.StepOps
 namespace GcArena
 
 theorem stepBody_inv {a : Arena} (h : Inv a) (hm : a.marked = false) (fin : Bool)
-    (hfin : fin = true → a.ctx.phase = .mark) (op : Op)
+    (hfin : fin = true → a.ctx.phase = .mark ∧ a.cb = none) (op : Op)
     (halive : (a.stepBody fin op).1.alive = true) : Inv (a.stepBody fin op).1 := by
   cases op with
-  | setPacing p => exact sb_setPacing h hm fin p
-  | adjustDebt x => exact sb_adjustDebt h hm fin x
+  | setPacing p => exact sb_setPacing h hm fin hfin p
+  | adjustDebt x => exact sb_adjustDebt h hm fin hfin x
   | collect m k f o => exact sb_collect h hm fin m k f o
-  | enter k => exact sb_enter h hm fin hfin k
+  | enter k => exact sb_enter h hm fin (fun hf => (hfin hf).1) k
   | leave => exact sb_leave h hm fin
   | alloc nt slots => exact sb_alloc h hm fin nt slots
   | readRoot i => exact sb_readRoot h fin i
@@ -38,7 +38,7 @@ theorem inv_step {a : Arena} (h : Inv a) (op : Op) (halive : (a.step op).1.alive
   unfold Arena.step at halive ⊢
   rw [hnot] at halive ⊢
   simp only [Bool.false_eq_true, if_false] at halive ⊢
-  exact stepBody_inv h.unmark rfl a.marked (fun hf => (h.markedMark hf).1) op halive
+  exact stepBody_inv h.unmark rfl a.marked h.markedMark op halive
 
 /-- Run an operation sequence. -/
 def Arena.run (a : Arena) : List Op → Arena
